@@ -58,3 +58,18 @@ package chain
 //@     invariant forall i int :: 0 <= i && i < len(toCommit) ==> toCommit[i] == blocks[i]
 //@     invariant forall i int :: 0 <= i && i < len(batch) ==> batch[i] == blocks[len(toCommit) + i]
 //@     invariant len(toCommit) == 0 || blocks[len(toCommit) - 1].BlockType != 4
+
+// ---- C20: a node refuses to start on a database whose first momentum differs from its configured genesis ---------------
+//@ model momentumPool frontierStore int
+//@ func momentumPool.GetFrontierMomentumStore(c)
+//@   trusted
+//@   ensures result != nil && int(result) == c.frontierStore
+//@   modifies nothing
+
+//@ spec momentumObj(id int) *nom.Momentum = ptr("*nom.Momentum", id)
+//@ spec frontierOf(c *chain) store.Momentum = iface("store.Momentum", c.momentumPool.frontierStore)
+
+//@ func chain.checkGenesisCompatibility(c)
+//@   requires c != nil && c.momentumPool != nil
+//@   requires frontierOf(c).momentumAt[1] != 0
+//@   ensures[refuse-foreign-db] result == nil && !old(frontierOf(c).idHeight == 0 && frontierOf(c).idHash == types.ZeroHash) ==> old(momentumObj(frontierOf(c).momentumAt[1]).Hash == momentumObj(c.Genesis.genesisMomentum).Hash)
